@@ -102,7 +102,7 @@ theorem pentagon_length : pentagonConstants.pentagon.length = 5 := by
 
 theorem getPentagonVertices_length (r : Int) (q : Nat) (a : Anchor) :
     (getPentagonVertices r q a).length = 5 := by
-  simp only [getPentagonVertices]
+  simp only [getPentagonVertices, getPentagonLocal, getPentagonLocalOf]
   rewrite [transformPoly_length, polyScale_length, polyTranslate_length]
   have e1 : ∀ (b : Bool) (p : Poly), (if b then polyRotate180 p else p).length = p.length := by
     intro b p; cases b
